@@ -634,7 +634,56 @@ func (w *World) ownerIn(f *ssa.Function, keys []string) string {
 			return k
 		}
 	}
+	// a helper shared by several of the keyed functions (and called from
+	// nowhere else) inherits the entry of the first that reaches it
+	var roots []*ssa.Function
+	for _, k := range keys {
+		if g := w.fn(k); g != nil {
+			roots = append(roots, g)
+		}
+	}
+	if len(roots) > 1 && w.privateClosureOf(roots)[f] {
+		for _, k := range keys {
+			if g := w.fn(k); g != nil && w.reachable([]*ssa.Function{g})[f] {
+				return k
+			}
+		}
+	}
 	return ""
+}
+
+// privateClosureOf: the roots together with the unexported functions reachable
+// from them that are called only from inside the set.
+func (w *World) privateClosureOf(roots []*ssa.Function) map[*ssa.Function]bool {
+	set := map[*ssa.Function]bool{}
+	for _, f := range roots {
+		set[f] = true
+	}
+	reach := w.reachable(roots)
+	changed := true
+	for changed {
+		changed = false
+		for g := range reach {
+			if set[g] || (g.Object() != nil && g.Object().Exported()) {
+				continue
+			}
+			callers := w.callersOf(g)
+			if len(callers) == 0 {
+				continue
+			}
+			all := true
+			for _, c := range callers {
+				if !set[c.Parent()] {
+					all = false
+				}
+			}
+			if all {
+				set[g] = true
+				changed = true
+			}
+		}
+	}
+	return set
 }
 
 // addressTaken: f is used as a value somewhere in the package (method value, function value, closure
